@@ -123,3 +123,36 @@ def verifyProof (H : Bytes → Bytes) (root : Bytes) (key : Bytes) (proofs : Lis
   walk H proofs (proofs.length + 1) root (toNibbles key)
 
 end NeoModel.Mpt
+
+namespace NeoModel.Mpt
+
+/-- size limits under which a node's encoding decodes again (extension.go:56-59, leaf.go:48-51):
+extension keys of at most `maxPathLength` nibbles, values of at most `maxValueLength` bytes.
+(`Put` enforces key ≤ 68 bytes and value ≤ `MaxValueLength`, trie.go:147-152.) -/
+def Bounded : Node → Prop
+  | .empty => True
+  | .leaf v => v.length ≤ maxValueLength
+  | .ext k n => k.length ≤ maxPathLength ∧ Bounded n
+  | .branch cs v => (∀ i, Bounded (cs i)) ∧ (∀ w, v = some w → w.length ≤ maxValueLength)
+
+end NeoModel.Mpt
+
+namespace NeoModel.Mpt
+
+/-- the encodings of all nodes of a trie (the byte strings whose hashes the trie refers to). -/
+def nodeEncs (H : Bytes → Bytes) : Node → List Bytes
+  | .empty => []
+  | .leaf v => [encLeaf v]
+  | .ext k n => enc H (.ext k n) :: nodeEncs H n
+  | .branch cs v =>
+    enc H (.branch cs v) :: ((List.finRange 16).flatMap (fun i => nodeEncs H (cs i)) ++
+      (match v with
+       | none => []
+       | some w => [encLeaf w]))
+
+/-- `H` has no collision inside the set `S` of byte strings. (A hash with 32-byte output cannot be
+injective on all byte strings; what the theorems need is: no collision among the byte strings that
+actually occur — the trie's node encodings and the items of the presented proof.) -/
+def CollFree (H : Bytes → Bytes) (S : List Bytes) : Prop := ∀ a ∈ S, ∀ b ∈ S, H a = H b → a = b
+
+end NeoModel.Mpt
